@@ -15,6 +15,8 @@
 package jobs
 
 import (
+	"sync"
+
 	"github.com/DataDog/datadog-go/v5/statsd"
 	"github.com/bamzi/jobrunner"
 	"github.com/mustafaturan/bus"
@@ -33,6 +35,7 @@ type Runner struct {
 	logger         *zap.SugaredLogger
 	store          *server.Store
 	scheduledJobs  map[string][]cron.EntryID
+	scheduledMu    sync.Mutex // guards scheduledJobs: jobs are added, paused, deleted and listed by concurrent requests
 	statsdClient   statsd.ClientInterface
 	tokenProviders *security.TokenProviders
 	raffle         *raffle
@@ -108,8 +111,12 @@ func (runner *Runner) addScheduledJob(job *job) error {
 		runner.logger.Errorf("Error scheduling job %v (%s): %w", job.id, job.title, err)
 		return err
 	}
+	verifhook.Acquire(runner, "runner.scheduledMu", runner)
+	runner.scheduledMu.Lock()
 	verifhook.Access(runner, "runner.scheduledJobs", true)
 	runner.scheduledJobs[job.id] = append(runner.scheduledJobs[job.id], entryID)
+	runner.scheduledMu.Unlock()
+	verifhook.Release(runner, "runner.scheduledMu", runner)
 
 	return nil
 }
@@ -131,8 +138,7 @@ func (runner *Runner) deleteJob(jobID string) error {
 	runner.logger.Infof("Deleting job with id '%s'", jobID)
 	defer func() {
 		// make sure the schedules are removed from the crontab
-		verifhook.Access(runner, "runner.scheduledJobs", true)
-		clearCrontab(runner.scheduledJobs, jobID)
+		runner.clearSchedule(jobID)
 		runner.eventBus.UnsubscribeToDataset(jobID)
 	}()
 	err := runner.store.DeleteObject(server.JobConfigIndex, jobID)
@@ -149,6 +155,30 @@ func (runner *Runner) killJob(jobID string) {
 		runner.logger.Infof("Killing job with id '%s'", jobID)
 		running.cancel()
 	}
+}
+
+// clearSchedule removes the cron entries of a job
+func (runner *Runner) clearSchedule(jobID string) {
+	verifhook.Acquire(runner, "runner.scheduledMu", runner)
+	runner.scheduledMu.Lock()
+	defer verifhook.Release(runner, "runner.scheduledMu", runner)
+	defer runner.scheduledMu.Unlock()
+	verifhook.Access(runner, "runner.scheduledJobs", true)
+	clearCrontab(runner.scheduledJobs, jobID)
+}
+
+// scheduledEntries returns a copy of the cron entry ids per job
+func (runner *Runner) scheduledEntries() map[string][]cron.EntryID {
+	verifhook.Acquire(runner, "runner.scheduledMu", runner)
+	runner.scheduledMu.Lock()
+	defer verifhook.Release(runner, "runner.scheduledMu", runner)
+	defer runner.scheduledMu.Unlock()
+	verifhook.Access(runner, "runner.scheduledJobs", false)
+	entries := make(map[string][]cron.EntryID, len(runner.scheduledJobs))
+	for k, v := range runner.scheduledJobs {
+		entries[k] = append([]cron.EntryID(nil), v...)
+	}
+	return entries
 }
 
 // clearCrontab makes sure old entries are removed from the list before new are added
